@@ -117,6 +117,13 @@ def check_sphinx(col, tier):
         if a != b:
             col.fail("C15.sphinx-history", {"doc": name}, "doctree of the document differs between a build of the whole project and a build without the other documents",
                      function="myst_parser.sphinx_ext.directives:FigureMarkdown.run")
+    # identical when parsed repeatedly: two builds of the same project
+    amsdocs = {"index.md": "# I\n\n\\begin{equation}\na=1\n\\end{equation}\n"}
+    b1, b2 = build(amsdocs, conf="myst_enable_extensions=['amsmath']\n"), build(amsdocs, conf="myst_enable_extensions=['amsmath']\n")
+    col.case(("sphinx-repeat", "amsmath"))
+    if b1["doctrees"]["index"].replace(b1["srcdir"], "") != b2["doctrees"]["index"].replace(b2["srcdir"], ""):
+        col.fail("C15.repeat", {"doc": "amsmath"}, "two builds of the same document give different doctrees (equation label/id)", known="C15-uuid-label",
+                 function="myst_parser.mdit_to_docutils.sphinx_:SphinxRenderer._random_label")
     par = build(SPHINX_DOCS, parallel=4)
     col.case(("sphinx-parallel", 4))
     for docname in full["doctrees"]:
@@ -171,5 +178,7 @@ def replay(col, case, check):
             col.fail("C15.history", case, "still differs")
     elif "topmatter" in case:
         check_merge_pure(col)
+    elif "extensions" in case:
+        check_sphinx(col, "quick")
     else:
         check_sphinx(col, "quick")
